@@ -1,6 +1,7 @@
 import PicoProofs.EndToEnd
 import PicoProofs.GoTieApi
 import PicoProofs.Tie
+import PicoModel.Sample
 /-
 C03 — Unmarshal(Marshal(m)) reproduces m for every message.
 
@@ -43,18 +44,7 @@ theorem C03_default_is_zero (k : Scalar) (hk : k.isBytes = false) (n : Nat) (h :
 theorem C03_duration (n : Int) (h : Time.I64 n) : Time.durDecode (Time.durSplit n).1 (Time.durSplit n).2 = n :=
   Time.dur_roundtrip n h
 
-/-- non-vacuity: the side conditions hold for a concrete schema with a oneof, a map, a nested and a
-recursive message, and a value exercising them (evaluated by the kernel) -/
-def S1 : Schema := [
-  ⟨[⟨1, .scalar .sint32, 0, 0, false, 0⟩, ⟨2, .scalar .string, 1, 0, false, 0⟩, ⟨3, .scalar .float, 2, 0, false, 0⟩,
-    ⟨4, .scalar .bool, 0, 1, false, 0⟩, ⟨5, .message 1, 0, 1, false, 0⟩, ⟨6, .map .int32 .bytes, 0, 0, false, 0⟩,
-    ⟨7, .message 0, 0, 0, false, 0⟩], false, false⟩,
-  ⟨[⟨1, .scalar .int64, 0, 0, false, 0⟩], true, false⟩ ]
-
-def v1 : Val := .msg [.num 0xFFFFFFFF, .some (.bytes []), .list [.num 0x80000000, .num 0x7FC00001],
-  .none, .some (.some (.msg [.num 0] [])), .map [(.num 0, .bytes [1]), (.num 7, .bytes [])],
-  .some (.msg [.num 0, .none, .list [], .some (.num 0), .none, .none, .none] [])] []
-
+/-! non-vacuity: the side conditions hold for the sample schema and value of `PicoModel/Sample.lean` -/
 example : S1.supported = true := by decide
 example : SpecRt.zeroMsgOkB S1 = true := by decide
 example : wtMsg S1 true 0 v1 = true := by decide
